@@ -372,3 +372,61 @@ V("c21-hook-skips-support-check", "C21", "R21.6", "dask_array/_collection.py",
 V("c21-twin-handler-order", "C21", "-", "dask_array/_frisky/collect.py",
   "            try:\n                layer = make_layer()\n            except (NotImplementedError, ImportError):\n                layer = None\n        if layer is None:\n            layer = GraphRecordsLayer(e)\n        records.extend(layer.to_task_records())",
   "            try:\n                layer = make_layer()\n            except (ImportError, NotImplementedError):\n                layer = None\n        if layer is None:\n            layer = GraphRecordsLayer(e)\n        records.extend(layer.to_task_records())", twin=True)
+
+# ---------------------------------------------------------------------------- C23
+V("c23-info-draws-live", "C23", "R23.1", "dask_array/random/_expr.py",
+  "root_entropy = int.from_bytes(copy.deepcopy(self.rng._numpy_state).bytes(16), \"little\")",
+  "root_entropy = int.from_bytes(self.rng._numpy_state.bytes(16), \"little\")", expect="Random._info")
+V("c23-spawn-live", "C23", "R23.1", "dask_array/random/_expr.py",
+  "seeds = copy.deepcopy(bitgen._seed_seq).spawn(n_bitgens)", "seeds = bitgen._seed_seq.spawn(n_bitgens)", expect="_spawn_bitgens")
+V("c23-choice-state-live", "C23", "R23.1", "dask_array/random/_choice.py",
+  "root_entropy = int.from_bytes(copy.deepcopy(self._state).bytes(16), \"little\")",
+  "root_entropy = int.from_bytes(self._state.bytes(16), \"little\")", expect="RandomChoice.state_data")
+V("c23-info-draws-through-local", "C23", "R23.1", "dask_array/random/_expr.py",
+  "root_entropy = int.from_bytes(copy.deepcopy(self.rng._numpy_state).bytes(16), \"little\")",
+  "st = self.rng._numpy_state\n            root_entropy = int.from_bytes(st.bytes(16), \"little\")", expect="Random._info")
+V("c23-shallow-copy", "C23", "R23.1", "dask_array/random/_expr.py",
+  "seeds = copy.deepcopy(bitgen._seed_seq).spawn(n_bitgens)", "seeds = copy.copy(bitgen)._seed_seq.spawn(n_bitgens)", expect="_spawn_bitgens")
+V("c23-wrapfunc-live-operand", "C23", "R23.2", "dask_array/random/_utils.py",
+  "expr = RandomNormal(frozen, size, chunks, extra_chunks, loc, scale)", "expr = RandomNormal(rng, size, chunks, extra_chunks, loc, scale)", expect="_wrap_func::RandomNormal.rng")
+V("c23-snapshot-noop", "C23", "R23.2", "dask_array/random/_utils.py",
+  "    return copy.deepcopy(rng)\n", "    return rng\n", expect="_snapshot_rng")
+V("c23-choice-live-state", "C23", "R23.2", "dask_array/random/_random_state.py",
+  "RandomChoice(a_val, a_expr, chunks, meta, _snapshot_rng(self._numpy_state), replace, p_expr)",
+  "RandomChoice(a_val, a_expr, chunks, meta, self._numpy_state, replace, p_expr)", expect="RandomChoice._state")
+V("c23-choice-kernel-consumes", "C23", "R23.3", "dask_array/random/_choice.py",
+  "state = _rng_from_bitgen(copy.deepcopy(state_data))", "state = _rng_from_bitgen(state_data)", expect="_choice_rng")
+V("c23-ship-bitgens", "C23", "R23.3", "dask_array/random/_expr.py",
+  "            bitgens = [_bitgen._seed_seq for _bitgen in bitgens]\n", "", expect="payload for _apply_random_func")
+V("c23-accept-slice", "C23", "R23.4", "dask_array/random/_expr.py",
+  "    @property\n    def _name(self):\n        return self._info[1]\n",
+  "    @property\n    def _name(self):\n        return self._info[1]\n\n    def _accept_slice(self, slice_expr):\n        return None\n", expect="Random::_accept_slice")
+V("c23-rechunk-pushdown-true", "C23", "R23.4", "dask_array/random/_expr.py",
+  "    _is_blockwise_fusable = True\n\n    @cached_property\n    def kwargs(self):",
+  "    _is_blockwise_fusable = True\n    _can_rechunk_pushdown = True\n\n    @cached_property\n    def kwargs(self):", expect="_can_rechunk_pushdown")
+V("c23-token-no-seeds", "C23", "R23.5", "dask_array/random/_expr.py",
+  "token = tokenize(bitgen_token, self.size, self.chunks, self.args, self.kwargs)", "token = tokenize(self.size, self.chunks, self.args, self.kwargs)", expect="name covers seeds")
+V("c23-token-lossy", "C23", "R23.5", "dask_array/random/_expr.py",
+  "            bitgen_token = tokenize(bitgens)\n            bitgens = [_bitgen._seed_seq for _bitgen in bitgens]",
+  "            bitgen_token = tokenize(len(bitgens))\n            bitgens = [_bitgen._seed_seq for _bitgen in bitgens]", expect="name covers seeds")
+V("c23-info-plain-property", "C23", "R23.6", "dask_array/random/_expr.py",
+  "    @cached_property\n    def _info(self):", "    @property\n    def _info(self):", expect="_info")
+V("c23-collect-no-mro", "C23", "R23.6", "dask_array/_expr.py",
+  "    names = set()\n    for parent in cls.__mro__:\n        for k, v in parent.__dict__.items():\n            if isinstance(v, functools.cached_property):\n                names.add(k)\n    return frozenset(names)\n",
+  "    return frozenset(k for k, v in cls.__dict__.items() if isinstance(v, functools.cached_property))\n", expect="_collect_cached_property_names")
+V("c23-task-size-index", "C23", "R23.7", "dask_array/random/_expr.py",
+  "            sizes[flat_idx],\n", "            sizes[block_id[0]],\n", expect="Random._task")
+V("c23-twin-rename-local", "C23", "-", "dask_array/random/_expr.py", None, None, twin=True, edits=[
+  ("dask_array/random/_expr.py", "root_entropy = int.from_bytes(copy.deepcopy(self.rng._numpy_state).bytes(16), \"little\")",
+   "private = copy.deepcopy(self.rng._numpy_state)\n            ent = int.from_bytes(private.bytes(16), \"little\")"),
+  ("dask_array/random/_expr.py", "np.random.SeedSequence(root_entropy)\n                .generate_state(len(sizes) * 4, dtype=np.uint32)\n                .reshape(len(sizes), 4)",
+   "np.random.SeedSequence(ent)\n                .generate_state(len(sizes) * 4, dtype=np.uint32)\n                .reshape(len(sizes), 4)"),
+])
+V("c23-twin-kernel-two-steps", "C23", "-", "dask_array/random/_choice.py",
+  "    state = _rng_from_bitgen(copy.deepcopy(state_data))\n", "    bg = copy.deepcopy(state_data)\n    state = _rng_from_bitgen(bg)\n", twin=True)
+V("c23-twin-wrapfunc-rename", "C23", "-", "dask_array/random/_utils.py", None, None, twin=True, edits=[
+  ("dask_array/random/_utils.py", "    frozen = _snapshot_rng(rng)\n", "    snap = copy.deepcopy(rng)\n"),
+  ("dask_array/random/_utils.py", "expr = RandomNormal(frozen, size,", "expr = RandomNormal(snap, size,"),
+  ("dask_array/random/_utils.py", "expr = RandomPoisson(frozen, size,", "expr = RandomPoisson(snap, size,"),
+  ("dask_array/random/_utils.py", "expr = Random(frozen, funcname,", "expr = Random(snap, funcname,"),
+])
